@@ -19,8 +19,20 @@ impl Elem {
         Elem { val, live: live.clone() }
     }
 }
+thread_local! {
+    /// fault injection: when armed with n > 0, the n-th element clone on this thread panics (and disarms)
+    static CLONE_FUSE: std::cell::Cell<i64> = const { std::cell::Cell::new(0) };
+}
+struct CloneFault;
 impl Clone for Elem {
     fn clone(&self) -> Self {
+        let f = CLONE_FUSE.with(|c| c.get());
+        if f > 0 {
+            CLONE_FUSE.with(|c| c.set(f - 1));
+            if f == 1 {
+                std::panic::panic_any(CloneFault);
+            }
+        }
         self.live.fetch_add(1, Ordering::SeqCst);
         Elem { val: self.val, live: self.live.clone() }
     }
@@ -182,6 +194,31 @@ fn run_slice_seq(r: &mut Rng, ctors: &[u64], ops: &[(u64, usize, usize)]) -> (Ve
             1 => {
                 // into_owned
                 let (cow, mk, content) = pool.swap_remove(i);
+                if mk != MK::Owned && content.len() >= 2 && j % 3 == 0 {
+                    // an element's Clone panics part-way through the copy: the value is consumed all the same, its share
+                    // of the Arc is given back exactly once and the copies made so far are destroyed
+                    CLONE_FUSE.with(|c| c.set(2 + (j % (content.len() - 1)) as i64));
+                    let res = std::panic::catch_unwind(std::panic::AssertUnwindSafe(|| cow.into_owned()));
+                    CLONE_FUSE.with(|c| c.set(0));
+                    match res {
+                        Err(_) => {
+                            if let MK::Shared(a) = mk {
+                                arc_expect[a] -= 1;
+                            }
+                            trace.push(format!("into_owned #{} ({:?}) with a panicking element clone", i, mk));
+                        }
+                        Ok(v) => {
+                            // the fuse was not reached (fewer clones than expected): an ordinary into_owned
+                            if let MK::Shared(a) = mk {
+                                arc_expect[a] -= 1;
+                            }
+                            drop(v);
+                            trace.push(format!("into_owned #{} ({:?})", i, mk));
+                        }
+                    }
+                    check_all!(trace.last().unwrap());
+                    continue;
+                }
                 let v: Vec<Elem> = cow.into_owned();
                 let got: Vec<u32> = v.iter().map(|e| e.val).collect();
                 match mk {
